@@ -244,7 +244,22 @@ def _run(case, cl):
     fault_at = {}        # bus index -> fault kind
     listen_faults = []
     plan = []            # (bus index, msg) for bookkeeping
-    faults = [f for f in case['faults'] if f]
+    faults = [dict(f) for f in case['faults'] if f]
+    # a fault of an application callback / disconnect handler is aimed at
+    # the first message that makes the listener invoke it (a random position
+    # almost never is one)
+    for f in faults:
+        if f['kind'] in ('callback', 'callback_cancelled'):
+            hits = [i for i, m in enumerate(case['msgs'])
+                    if m['k'] == 'cb' and m.get('host') == 'own' and
+                    m.get('id') == 'right']
+        elif f['kind'] == 'disconnect_handler':
+            hits = [i for i, m in enumerate(case['msgs'])
+                    if m['k'] == 'valid' and m.get('method') == 'disconnect']
+        else:
+            hits = []
+        if hits:
+            f['at'] = hits[0]
     n = 0
     for i, m in enumerate(case['msgs']):
         k = m['k']
